@@ -1189,6 +1189,8 @@ def main(outfile):
     py2lean_sim.main_simulate(os.path.join(os.path.dirname(outfile), 'TranslatedSimulate.lean'),
                               lambda: fn_ast(simulator.Circuit._simulate), write_if_changed)
 
+    import py2lean_interval                                      # separate module: interval notations, timeinterval.py (C13)
+    py2lean_interval.main_interval(os.path.join(os.path.dirname(outfile), 'TranslatedInterval.lean'), write_if_changed)
 
 if __name__ == '__main__':
     main(sys.argv[1])
